@@ -84,6 +84,12 @@ Sandwich ==
     /\ (ImplAcc => MayAcc)
          \/ Report([t |-> "DISAGREE", dir |-> "more", id |-> Obs[case].id, path |-> path, x |-> Explain])
 
+(* consistency of the specification itself: the strict reading is contained in the liberal one *)
+Ordered ==
+  st = "run" =>
+    (MustAcc => MayAcc) \/ Report([t |-> "SPEC", what |-> "strict_reading_accepts_what_the_liberal_rejects",
+                                  id |-> Obs[case].id, path |-> path])
+
 (* a built expression that the documented syntax does not read is a finding for C06, *)
 (* reported there; here it is only counted                                            *)
 Coverage ==
